@@ -439,7 +439,7 @@ Lemma del_msg_neutral dr f s c n sid u req hard :
   let h := del_msg dr f s c n sid u req hard in sneutral s (h_st h) /\ cneutral c (h_ca h).
 Proof.
   cbn zeta. unfold del_msg.
-  destruct (negb (is_deleter (user_mode c u)) && negb (is_reader (user_mode c u))) eqn:EM;
+  destruct (negb (hard && is_deleter (user_mode c u)) && negb (is_reader (user_mode c u))) eqn:EM;
     [split; [apply sneutral_refl|apply cneutral_refl]|].
   destruct (dr (c_lastid c) req) as [ranges|]; [|split; [apply sneutral_refl|apply cneutral_refl]].
   destruct (call f n) as [ok1 n1]. destruct ok1; cbn [negb]; [|split; [apply sneutral_refl|apply cneutral_refl]].
@@ -450,7 +450,7 @@ Proof.
   2:{ split; [|apply cneutral_refl]. eapply sneutral_trans; [exact N1|]. apply sneutral_delid. }
   split.
   - eapply sneutral_trans; [exact N1|]. eapply sneutral_trans; [apply sneutral_delid|now apply sneutral_marks].
-  - destruct (hard && is_deleter (user_mode c u)).
+  - destruct (hard && is_deleter (user_mode c u)); cbn [negb andb] in EM.
     + apply (cneutral_trans _ (c_set_delid (c_delid c + 1)%Z c)); [apply cneutral_delid|]. apply cneutral_map_delid.
     + apply (cneutral_trans _ (c_set_delid (c_delid c + 1)%Z c)); [apply cneutral_delid|].
       unfold user_mode, get_pud in *. cbn [c_users c_set_delid].
